@@ -107,6 +107,10 @@ SEEDS = {
     "C15_e": ("_incoming5/C15", "C15", ["C15"], "a sink leaves _global_sinks when its last upstream is removed: disconnect from the only upstream, connect to another stream, drop the reference, collect"),
     "C17_e": ("_incoming5/C17", "C17", ["C17"], "from_textfile skips the emission when everything before the last delimiter is empty: a poll whose buffer is exactly one bare delimiter (a blank record on its own)"),
     "C20_e": ("_incoming5/C20", "C20", ["C20", "C16"], "gather resolves its ordering future only on success: one element whose task fails, followed by further elements"),
+    "C02_e": ("_incoming5/C02", "C02", ["C02", "C08"], "partition(timeout) arms its timer when no handle is registered and drops the expired handle only after the timeout flush has finished: an element arriving while that flush is blocked on a slow consumer, fewer than n followers"),
+    "C08_e": ("_incoming5/C08", "C08", ["C08"], "partition(timeout) arms a timer only when the key has no handle and never forgets a fired one: a partial partition flushed by the timeout, then another partial partition of the same key"),
+    "C10_e": ("_incoming5/C10", "C10", ["C10", "C05"], "partition_unique(keep='last') leaves the replaced key's metadata at its old position: a key repeated within one partition with another key in between, metadata on the elements"),
+    "C16_e": ("_incoming5/C16", "C16", ["C16", "C04"], "_finished() accepts an awaitable that is done with an exception: a loop-bound pipeline, a counter in the metadata, a consumer handing back an already failed future"),
 }
 
 
